@@ -142,7 +142,7 @@ func (bi *binterp) callRecv(f *Func, recv bval, args []bval) bval {
 
 func zeroOf(T types.Type) bval {
 	switch {
-	case isByteSlice(T):
+	case isByteSlice(T) || typeName(T) == "bytes.Buffer":
 		return bval{k: bSeq}
 	case isStringType(T):
 		return unknownVal("zero string")
@@ -212,6 +212,8 @@ func (bi *binterp) stmt(fr *bframe, s ast.Stmt) {
 					v = bval{k: bInt, n: cur.n + v.n}
 				} else if cur.k == bInt && v.k == bInt && x.Tok == token.SUB_ASSIGN {
 					v = bval{k: bInt, n: cur.n - v.n}
+				} else if isIntLike(cur) && isIntLike(v) {
+					v = unknownVal("sum of symbolic lengths") // a capacity hint: only its use as a bound would matter
 				} else {
 					bi.failf("%s: compound assignment not understood", fr.f.Name)
 					return
@@ -324,6 +326,37 @@ func (bi *binterp) stmt(fr *bframe, s ast.Stmt) {
 			}
 		}
 	case *ast.ExprStmt:
+		// buf.Write(b) / buf.WriteString(s) / buf.WriteByte(c) on a local bytes.Buffer: the buffer grows by the argument
+		if call, ok := x.X.(*ast.CallExpr); ok {
+			if se, ok := ast.Unparen(call.Fun).(*ast.SelectorExpr); ok && len(call.Args) == 1 {
+				if id, ok := ast.Unparen(se.X).(*ast.Ident); ok {
+					if fo, ok := typeutil.Callee(fr.f.Pkg.TypesInfo, call).(*types.Func); ok {
+						switch qname(fo) {
+						case "bytes.Buffer.Write", "bytes.Buffer.WriteString":
+							cur := bi.expr(fr, id)
+							av := bi.expr(fr, call.Args[0])
+							if av.k == bStr {
+								kind := "Str"
+								if av.bech32 {
+									kind = "Bech32"
+								}
+								if av.role == "<empty>" {
+									av = bval{k: bSeq}
+								} else {
+									av = bval{k: bSeq, seq: Shape{{Kind: kind, Role: av.role, Par: av.par}}}
+								}
+							}
+							cs, ok1 := segsOf(cur)
+							as, ok2 := segsOf(av)
+							if ok1 && ok2 {
+								bi.assign(fr, id, bval{k: bSeq, seq: append(append(Shape(nil), cs...), as...)})
+								return
+							}
+						}
+					}
+				}
+			}
+		}
 		bi.failf("%s: statement with effects not understood", fr.f.Name)
 	case *ast.EmptyStmt:
 	default:
@@ -597,7 +630,11 @@ func (bi *binterp) callExpr(fr *bframe, x *ast.CallExpr) bval {
 					if av.bech32 {
 						kind = "Bech32"
 					}
-					av = bval{k: bSeq, seq: Shape{{Kind: kind, Role: av.role, Par: av.par}}}
+					if av.role == "<empty>" {
+						av = bval{k: bSeq}
+					} else {
+						av = bval{k: bSeq, seq: Shape{{Kind: kind, Role: av.role, Par: av.par}}}
+					}
 				}
 				t, ok := segsOf(av)
 				if !ok {
@@ -627,13 +664,36 @@ func (bi *binterp) callExpr(fr *bframe, x *ast.CallExpr) bval {
 			}
 		}
 		switch name {
+		case "bytes.Buffer.Bytes":
+			if recv.k == bSeq {
+				return recv
+			}
+		case "bytes.TrimSuffix":
+			// one trailing occurrence of the suffix is cut if present
+			if len(x.Args) == 2 {
+				v, suf := bi.expr(fr, x.Args[0]), bi.expr(fr, x.Args[1])
+				if v.k == bSeq && suf.k == bSeq && len(suf.seq) == 1 {
+					if n := len(v.seq); n > 0 && v.seq[n-1] == suf.seq[0] {
+						return bval{k: bSeq, seq: append(Shape(nil), v.seq[:n-1]...)}
+					}
+					if len(v.seq) == 0 {
+						return v
+					}
+				}
+			}
 		case "sdk.AccAddress.Bytes":
 			if recv.k == bAddr {
 				return bval{k: bSeq, seq: Shape{{Kind: "Addr", Role: recv.role, Par: recv.par}}}
 			}
+			if recv.k == bSeq && len(recv.seq) == 0 {
+				return recv // the bytes of a nil address
+			}
 		case "sdk.AccAddress.String":
 			if recv.k == bAddr {
 				return bval{k: bStr, par: recv.par, role: recv.role, bech32: true}
+			}
+			if recv.k == bSeq && len(recv.seq) == 0 {
+				return bval{k: bStr, par: -1, role: "<empty>"} // the text of a nil address is the empty string
 			}
 		case "sdk.Uint64ToBigEndian":
 			if len(x.Args) == 1 {
@@ -668,3 +728,5 @@ func (bi *binterp) callExpr(fr *bframe, x *ast.CallExpr) bval {
 	}
 	return unknownVal("call " + types.ExprString(x))
 }
+
+func isIntLike(v bval) bool { return v.k == bInt || v.k == bLen || v.k == bNum || v.k == bUnknown }
